@@ -138,11 +138,19 @@ TSeeds == Is("SeedsConcurrent") /\ Contract("seedsEqualSequentialSet", Ev.differ
           /\ UNCHANGED <<vc, forkVC, endVC, last, relVC, shrVC, owner, scen>>
 TSpaces == Is("SpaceNames") /\ Contract("spaceNamesUnique", Ev.distinct = Ev.n /\ Ev.n > 0)
            /\ UNCHANGED <<vc, forkVC, endVC, last, relVC, shrVC, owner, scen>>
+(* logging (ConsoleLog.tla): what the handlers saw at the linearization point - inside their own log(), which the    *)
+(* library calls with the console lock held: they were the installed handler, the message was not below the level, *)
+(* and no two handler calls overlapped                                                                             *)
+TConsole == Is("ConsoleLog")
+            /\ Report((IF Ev.stale = 0 /\ Ev.delivered > 0 THEN {} ELSE {"logDeliveredToInstalledHandler"}) \cup
+                       (IF Ev.belowLevel = 0 THEN {} ELSE {"logLevelRespected"}) \cup
+                       (IF Ev.overlap = 0 THEN {} ELSE {"handlerCallsSerialized"}), scen)
+            /\ UNCHANGED <<vc, forkVC, endVC, last, relVC, shrVC, owner, scen>>
 TBad == /\ l <= NLog /\ Ev.e \in {"Hang", "Crash"} /\ l' = l + 1 /\ Report({Ev.e}, scen)
         /\ UNCHANGED <<vc, forkVC, endVC, last, relVC, shrVC, owner, scen>>
 
 TNext == TScenario \/ TFork \/ TBegin \/ TEnd \/ TJoin \/ TAccess \/ TCounters \/ TTerminate \/ TNN
-         \/ TSolutions \/ TSeeds \/ TSpaces \/ TBad \/ TAcquire \/ TRelease \/ TAcquireShared \/ TReleaseShared
+         \/ TSolutions \/ TSeeds \/ TSpaces \/ TConsole \/ TBad \/ TAcquire \/ TRelease \/ TAcquireShared \/ TReleaseShared
          \/ TSkip
 TSpec == TInit /\ [][TNext]_tvars
 NotAccepted == l <= NLog
